@@ -14,6 +14,7 @@ pub fn cfg() -> GenCfg {
     c.max_layers = 4;
     c.max_frames = 3;
     c.tile_aligned = false;
+    c.scale = false; // per-position / per-offset enumeration: keep the files small
     c
 }
 
